@@ -1027,8 +1027,8 @@ func (c *Ctx) refAlternatives(fam *expFamily, fd *ast.FuncDecl, e ast.Expr, env 
 	}
 	if call, ok := e.(*ast.CallExpr); ok {
 		if c.isSpecFunc(call, "denormalizeRef") && len(call.Args) == 3 {
-			p1, ok1 := c.apath(call.Args[1])
-			p2, ok2 := c.apath(call.Args[2])
+			p1, ok1 := c.apathVia(fd, call.Args[1])
+			p2, ok2 := c.apathVia(fd, call.Args[2])
 			frameOK := ok1 && ok2 && len(p1.Steps) == 2 && len(p2.Steps) == 2 && p1.Steps[0] == "context" && p2.Steps[0] == "context" &&
 				p1.Steps[1] == "basePath" && p2.Steps[1] == "rootID" && isNamed(p1.Root.Type(), c.Types, fam.loader.Obj().Name())
 			if !frameOK {
@@ -1127,7 +1127,7 @@ func ruleRefStore(c *Ctx) {
 			key := fmt.Sprintf("%s:keep#%d", fn, ord)
 			good, why := true, ""
 			for _, alt := range alts {
-				lits := append(append([]condLit{}, site...), alt.lits...)
+				lits := c.derivedLits(append(append([]condLit{}, site...), alt.lits...))
 				hasLit := func(pred func(e ast.Expr) bool, wantNeg bool) bool {
 					for _, cl := range lits {
 						if cl.neg == wantNeg && pred(cl.e) {
